@@ -18,7 +18,7 @@ BOUNDS = {
 OUTSIDE = _c05.OUTSIDE
 ASSUMPTIONS = _c05.ASSUMPTIONS + ["additional lookups are modelled by their only side effect, LazyIntervalTree.get() (empty-range query / Section.address read)"]
 SEC_EDITS = "ANZram"
-SEC_PAIRS = ["AZ", "ZA", "AA", "ra", "ma", "NA", "rA", "mZ"]
+SEC_PAIRS = ["AZ", "ZA", "AA", "ra", "ma", "NA", "rA", "mZ", "Nr", "Nm", "rN"]
 
 
 def sec_history_shards(tier, fn, all_scheds):
@@ -39,6 +39,10 @@ def sec_history_shards(tier, fn, all_scheds):
                     if k >= 2 and not all_scheds and sched == 1 and nb != nbs[-1]:
                         continue
                     out.append({"fn": fn, "consts": {"ops": ops, "sched": sched, "nb": nb}, "timeout": 900})
+    # the same node toggled three times without a lookup in between (a de-duplicated or reordered backlog shows only then)
+    for ops in ("rar", "ara", "AAA"):
+        for sched in ((1,) if all_scheds else (1,)):
+            out.append({"fn": fn, "consts": {"ops": ops, "sched": sched, "nb": 4}, "timeout": 900})
     return out
 
 
